@@ -229,7 +229,22 @@ func registerCLI(e *Engine) {
 		case "staterror":
 			return Tuple{Iface{t: fst, v: (*Opaque)(nil)}, m.osError("stat: permission denied", false)}
 		}
-		return Tuple{Iface{t: fst, v: &Opaque{kind: "fileinfo", data: "file"}}, Iface{}}
+		fi := &Opaque{kind: "fileinfo", data: "file"}
+		if m.fileInfos == nil {
+			m.fileInfos = map[*Opaque]*fsEntry{}
+		}
+		m.fileInfos[fi] = ent
+		return Tuple{Iface{t: fst, v: fi}, Iface{}}
+	}
+	in["(*os.fileStat).Size"] = func(m *Machine, fr *frame, a []Value) Value {
+		o, _ := a[0].(*Opaque)
+		if o == nil {
+			panic(targetPanic{runtime: "invalid memory address or nil pointer dereference (nil FileInfo)"})
+		}
+		if ent, ok := m.fileInfos[o]; ok {
+			return lenOfStr(ent.content)
+		}
+		return Num{c: 4096}
 	}
 	in["os.IsNotExist"] = func(m *Machine, fr *frame, a []Value) Value {
 		itf := a[0].(Iface)
